@@ -131,7 +131,9 @@ def _strip_alias(t):
             t = t[2]
         elif t[0] == "u" and t[1] in ("*", "&"):
             t = t[2]
-        elif t[0] == "ctor" and len(t) >= 5 and t[4] is True and len(t[3]) == 1:
+        elif t[0] == "ctor" and len(t) >= 4 and len(t[3]) == 1:
+            t = t[3][0]          # a copy / move of the returned local (elided or not)
+        elif t[0] == "call" and len(t) >= 4 and len(t[3]) == 1 and erase(t[2]) in ("std::move", "std::forward"):
             t = t[3][0]
         else:
             break
